@@ -1308,7 +1308,11 @@ def unpack_collection(spec: ValueSpec) -> Optional[Expression]:
         )
     elif ensure_generic_mapping(spec, args, collections.defaultdict):
         spec.builder.ensure_module_imported(collections)
-        default_type = type_name(args[1] if args else None)
+        default_arg = args[1] if args else None
+        while is_type_alias_type(default_arg):
+            # "type X = ..." is not callable: the factory is the aliased type
+            default_arg = default_arg.__value__
+        default_type = type_name(default_arg)
         return (
             f"collections.defaultdict({default_type}, "
             f"{{{inner_expr(0, 'key')}: "
